@@ -91,7 +91,10 @@ fn plan(ctx: &Ctx, e: &Entry, prop: &str) -> Plan {
         "C05" => Plan { kinds: vec![(1, Kind::Read), (3, Kind::Write)], elig: filt(&|f| f.is_signed), exhaustive_ok: true },
         "C08" => Plan { kinds: vec![(1, Kind::Read), (3, Kind::Write)], elig: filt(&|f| f.is_custom), exhaustive_ok: true },
         "C06" => Plan { kinds: vec![(1, Kind::Raw)], elig: all, exhaustive_ok: true },
-        "C11" | "C12" => Plan { kinds: vec![(1, Kind::History)], elig: all, exhaustive_ok: false },
+        "C11" => Plan { kinds: vec![(1, Kind::History)], elig: all, exhaustive_ok: false },
+        // C12: for small bases the single-step agreement is swept exhaustively first (every raw x field x
+        // index x value through with_ and set_), which by induction covers every history; then histories
+        "C12" => Plan { kinds: vec![(1, Kind::History)], elig: all, exhaustive_ok: true },
         "C13" => Plan { kinds: vec![(1, Kind::Build)], elig: all, exhaustive_ok: false },
         "C16" => {
             let mut k = vec![(2, Kind::Read), (3, Kind::Write), (2, Kind::History), (1, Kind::Raw)];
@@ -336,12 +339,13 @@ fn run_layout(e: &Entry, args: &Args) -> LayoutResult {
 
     // ---- exhaustive sweep for small bases (no RNG involved)
     let bb = ctx.layout.base_bits;
-    if pl.exhaustive_ok && bb <= 12 {
+    if pl.exhaustive_ok && bb <= if prop == "C12" { 10 } else { 12 } {
         let nraw = 1u64 << bb;
         let mut per_raw: u64 = 0;
         let mut full = true;
         let mut targets: Vec<(Kind, usize, usize, Vec<u128>)> = Vec::new();
-        for (_, k) in &pl.kinds {
+        let sweep_kinds: Vec<Kind> = if prop == "C12" { vec![Kind::Write] } else { pl.kinds.iter().map(|k| k.1).collect() };
+        for k in &sweep_kinds {
             match k {
                 Kind::Read => {
                     for f in pl.elig.iter().copied().filter(|f| ctx.fields[*f].readable) {
@@ -397,7 +401,10 @@ fn run_layout(e: &Entry, args: &Args) -> LayoutResult {
                     }
                 }
             }
-            res.exhaustive = full && res.failure.is_none();
+            res.exhaustive = full && res.failure.is_none() && prop != "C12";
+            if prop == "C12" && full && res.failure.is_none() {
+                res.extra.insert("single_step_sweep_exhaustive".into(), 1);
+            }
             // out-of-range indices are still sampled below for C03
             if res.failure.is_some() || prop != "C03" {
                 // also run a reduced random part so that seeds matter even for tiny bases
